@@ -224,9 +224,9 @@ def c12(tier, seed):
     env_induction(rep, orders)
     # R: walks with delays between the reads
     b, n = e2e_sim(rep, "sim", dict(SIM, **orders), 400 if tier == "quick" else 6000, 45, seed)
-    drifts = e2e_replay(rep, b, orders, {"C12", "C01"}, "E2E walks")
+    drifts = e2e_replay(rep, b, orders, {"C12"}, "E2E walks")
     os.remove(b)
-    e2e_explore(rep, [seed * 100 + i for i in range(8 if tier == "quick" else 64)], 3000 if tier == "quick" else 30000, orders, {"C12", "C01"}, "random virtual-time histories (delays between every pair of steps)")
+    e2e_explore(rep, [seed * 100 + i for i in range(8 if tier == "quick" else 64)], 3000 if tier == "quick" else 30000, orders, {"C12"}, "random virtual-time histories (delays between every pair of steps)")
     # the poller half on every poll outcome incl. the PHC path, the client half on the vector set (Rust and C)
     import daemonchecks, clientchecks
     bd, _ = daemonchecks.daemon_cover(rep, "phc", daemonchecks.COVERS["phc"])
